@@ -5,9 +5,11 @@ import (
 	"errors"
 	"fmt"
 	"io"
+	"math/rand"
 	"os"
 	"path/filepath"
 	"strings"
+	"sync"
 
 	"github.com/kaitai-io/kaitai_struct_go_runtime/kaitai"
 	"github.com/thomasjungblut/go-sstables/kaitai/gokaitai"
@@ -78,9 +80,97 @@ func init() {
 	})
 }
 
+// c20Concurrent: every 6th case additionally writes three files AT THE SAME TIME from three goroutines (independent
+// writers on different files) and decodes each with the three readers: what one writer emits must not depend on
+// what other writers are doing.
+func c20Concurrent(c *fw.Case, comp int) {
+	type out struct {
+		recs [][]byte
+		err  error
+	}
+	res := make([]out, 3)
+	var wg sync.WaitGroup
+	for g := 0; g < 3; g++ {
+		wg.Add(1)
+		seed := c.R.Int63()
+		go func(g int, seed int64) {
+			defer wg.Done()
+			r := rand.New(rand.NewSource(seed))
+			var recs [][]byte
+			for i := 0; i < 400; i++ {
+				switch r.Intn(4) {
+				case 0:
+					recs = append(recs, nil)
+				case 1:
+					recs = append(recs, []byte{})
+				default:
+					recs = append(recs, gen.Bytes(r, 1+r.Intn(40)))
+				}
+			}
+			_, err := writeRio(filepath.Join(c.Dir, fmt.Sprintf("conc%d.rio", g)), comp, 4096, recs)
+			res[g] = out{recs, err}
+		}(g, seed)
+	}
+	wg.Wait()
+	c.Obs("files_written_while_other_writers_were_active", 3)
+	for g := 0; g < 3; g++ {
+		if res[g].err != nil {
+			c.Violate("harness/write", "concurrent writer %d: %v", g, res[g].err)
+			return
+		}
+		img, err := os.ReadFile(filepath.Join(c.Dir, fmt.Sprintf("conc%d.rio", g)))
+		if err != nil {
+			c.Violate("harness/read", "%v", err)
+			return
+		}
+		pf, perr := rio.Parse(img)
+		k := gokaitai.NewRecordioV4()
+		kerr := func() (err error) {
+			defer func() {
+				if p := recover(); p != nil {
+					err = fmt.Errorf("panic: %v", p)
+				}
+			}()
+			if perr != nil {
+				return fmt.Errorf("not attempted: the layout is already broken (%v)", perr) // (a wild length would make the generated reader allocate without bound)
+			}
+			return k.Read(kaitai.NewStream(bytes.NewReader(img)), nil, k)
+		}()
+		bad := ""
+		switch {
+		case perr != nil:
+			bad = fmt.Sprintf("layout parser: %v", perr)
+		case len(pf.Recs) != len(res[g].recs) || pf.Tail != len(img):
+			bad = fmt.Sprintf("layout parser sees %d records (+%d trailing bytes), written %d", len(pf.Recs), len(img)-pf.Tail, len(res[g].recs))
+		case kerr != nil:
+			bad = fmt.Sprintf("Kaitai reader: %v", kerr)
+		case len(k.Record) != len(res[g].recs):
+			bad = fmt.Sprintf("Kaitai reader sees %d records, written %d", len(k.Record), len(res[g].recs))
+		}
+		if bad == "" {
+			for i, kr := range k.Record {
+				if (kr.RecordNil == 1) != (res[g].recs[i] == nil) {
+					bad = fmt.Sprintf("record %d: nil flag %d, written nil=%v", i, kr.RecordNil, res[g].recs[i] == nil)
+					break
+				}
+			}
+		}
+		if bad != "" {
+			c.Violate("recordio/file-written-while-other-writers-were-active", "compression=%d file %d of 3 written concurrently: %s", comp, g, bad)
+			return
+		}
+	}
+}
+
 func runC20(c *fw.Case) {
 	r := c.R
 	comp := c.Idx % 4
+	if c.Idx%6 == 5 {
+		c20Concurrent(c, comp)
+		if c.Violated() {
+			return
+		}
+	}
 	n := r.Intn(26)
 	var recs [][]byte
 	for i := 0; i < n; i++ {
